@@ -285,31 +285,68 @@ class AngleMonitors:
         self.installed = []
 
     # vectorised forms: judged elementwise by explicit calls --------------------------------------
-    def call_hp2dec_v(self, hps):
-        arr = np.array(hps, dtype=float)
-        name = 'hp2dec_v'
+    V_LAYOUTS = ('1d', 'list', 'tuple', '2d', 'transposed-view', 'fortran', 'reversed-view', 'read-only', 'strided-view')
+
+    def _deliver(self, vals):
+        """The same values delivered another way on every call (round robin): a list, a tuple, a 2-D array, a transposed or
+        reversed view, Fortran memory order, a read-only array, every second element of a larger array.  Returns the
+        argument and the values in the logical (index) order of that argument."""
+        self._vcalls = getattr(self, '_vcalls', 0) + 1
+        kind = self.V_LAYOUTS[self._vcalls % len(self.V_LAYOUTS)]
+        arr = np.array(vals, dtype=float)
+        n = arr.size
+        if kind in ('2d', 'transposed-view', 'fortran') and (n < 4 or n % 2):
+            kind = 'reversed-view'
+        if kind == 'list':
+            arg = [float(v) for v in arr]
+        elif kind == 'tuple':
+            arg = tuple(float(v) for v in arr)
+        elif kind == '2d':
+            arg = arr.reshape(2, n // 2).copy()
+        elif kind == 'transposed-view':
+            arg = arr.reshape(2, n // 2).copy().T
+        elif kind == 'fortran':
+            arg = np.asfortranarray(arr.reshape(2, n // 2))
+        elif kind == 'reversed-view':
+            arg = arr.copy()[::-1]
+        elif kind == 'read-only':
+            arg = arr.copy()
+            arg.setflags(write=False)
+        elif kind == 'strided-view':
+            big = np.full(2 * n, 0.5)
+            big[::2] = arr
+            arg = big[::2]
+        else:
+            arg = arr.copy()
+        if self.ctx is not None:
+            self.ctx.count('vectorised_argument_delivered_as:' + kind)
+        logical = [float(v) for v in np.asarray(arg, dtype=float).ravel(order='C')]
+        return arg, logical, np.shape(arg)
+
+    def _call_v(self, name, src, dst, vals):
+        arg, logical, shape = self._deliver(vals)
         try:
-            out = self.A.hp2dec_v(arr.copy())
+            out = getattr(self.A, name)(arg)
         except Exception as e:
-            for h in hps:
-                self.judge(name, 'hp', h, 'dec', None, e)
+            for v in logical:
+                self.judge(name, src, v, dst, None, e)
             return None
-        for h, d in zip(hps, out):
-            self.judge(name, 'hp', float(h), 'dec', float(d), None)
-        return out
+        res = np.asarray(out, dtype=float)
+        if res.shape != tuple(shape):
+            err = ValueError('result of shape %r for an argument of shape %r' % (res.shape, tuple(shape)))
+            for v in logical:
+                self.judge(name, src, v, dst, None, err)
+            return None
+        flat = res.ravel(order='C')
+        for v, r in zip(logical, flat):
+            self.judge(name, src, float(v), dst, float(r), None)
+        return flat
+
+    def call_hp2dec_v(self, hps):
+        return self._call_v('hp2dec_v', 'hp', 'dec', hps)
 
     def call_dec2hp_v(self, decs):
-        arr = np.array(decs, dtype=float)
-        name = 'dec2hp_v'
-        try:
-            out = self.A.dec2hp_v(arr.copy())
-        except Exception as e:
-            for d in decs:
-                self.judge(name, 'dec', d, 'hp', None, e)
-            return None
-        for d, h in zip(decs, out):
-            self.judge(name, 'dec', float(d), 'hp', float(h), None)
-        return out
+        return self._call_v('dec2hp_v', 'dec', 'hp', decs)
 
 
 def _argrepr(x):
